@@ -31,8 +31,30 @@ type rowAdder interface {
 func (s *dpState) addRowCase(cid, writer string, nthreads, total int) {
 	s.nfile++
 	file := filepath.Join(s.dir, fmt.Sprintf("conc%d-%s.updog", s.nfile, writer))
-	ids := make([]int64, total)
-	outcome := "OK"
+	outcome, ids := addRowWork(file, writer, nthreads, total, 0)
+	s.addRowFinish(cid, writer, file, outcome, ids)
+}
+
+// addRowPair: two writer instances filled at the same time (nthreads goroutines each); the
+// second one gets rows off, off+1, ... so that the two hold different values.
+func (s *dpState) addRowPair(cidA, writerA, cidB, writerB string, nthreads, total, off int) {
+	s.nfile += 2
+	fileA := filepath.Join(s.dir, fmt.Sprintf("conc%d-%s.updog", s.nfile-1, writerA))
+	fileB := filepath.Join(s.dir, fmt.Sprintf("conc%d-%s.updog", s.nfile, writerB))
+	var wg sync.WaitGroup
+	var oA, oB string
+	var idsA, idsB []int64
+	wg.Add(2)
+	go func() { defer wg.Done(); oA, idsA = addRowWork(fileA, writerA, nthreads, total, 0) }()
+	go func() { defer wg.Done(); oB, idsB = addRowWork(fileB, writerB, nthreads, total, off) }()
+	wg.Wait()
+	s.addRowFinish(cidA, writerA, fileA, oA, idsA)
+	s.addRowFinish(cidB, writerB, fileB, oB, idsB)
+}
+
+func addRowWork(file, writer string, nthreads, total, off int) (outcome string, ids []int64) {
+	ids = make([]int64, total)
+	outcome = "OK"
 	_, ok := guard(func() {
 		var w rowAdder
 		var cleanup func()
@@ -65,7 +87,7 @@ func (s *dpState) addRowCase(cid, writer string, nthreads, total int) {
 				defer wg.Done()
 				<-start
 				for j := g; j < total; j += nthreads {
-					id, err := w.AddRow(concRow(j))
+					id, err := w.AddRow(concRow(j + off))
 					if err != nil {
 						mu.Lock()
 						outcome = "ERR"
@@ -89,6 +111,11 @@ func (s *dpState) addRowCase(cid, writer string, nthreads, total int) {
 	if !ok {
 		outcome = "PANIC"
 	}
+	return outcome, ids
+}
+
+func (s *dpState) addRowFinish(cid, writer, file, outcome string, ids []int64) {
+	total := len(ids)
 	sorted := append([]int64(nil), ids...)
 	sort.Slice(sorted, func(i, j int) bool { return sorted[i] < sorted[j] })
 	perm := "PERMUTATION"
